@@ -252,6 +252,9 @@ fn compare_r(a: &[&str], b: &[&str], p: &Proj) -> Option<String> {
     let ta: Vec<&&str> = a[13..].iter().filter(|t| !t.contains('=')).collect();
     let tb: Vec<&&str> = b[13..].iter().filter(|t| !t.contains('=')).collect();
     if p.slice && ta.len() == 2 && tb.len() == 2 {
+        if ta[0].starts_with('X') {
+            return Some(format!("requested sleep {} exceeds the slice duration", &ta[0][1..]));
+        }
         if (*ta[0] == "-") != (*tb[0] == "-") {
             return Some("sleep request".into());
         }
